@@ -4,7 +4,7 @@
    every database, context, argument and call sequence (Proofs/TenancyProofs.v).
    Only theorem statements closed by `exact`/table computation, each followed by Print Assumptions. *)
 From Coq Require Import List Bool Arith String Lia.
-Require Import Mistral.Model.Tenancy Mistral.Proofs.TenancyProofs Mistral.Gen.DbShapes.
+Require Import Mistral.Model.Tenancy Mistral.Proofs.TenancyProofs Mistral.Gen.DbShapes Mistral.Gen.RestLists.
 Import ListNotations.
 
 Definition in_table (s : shape) : Prop := exists n m, In (n, m, s) db_shapes.
@@ -169,6 +169,58 @@ Theorem C15_member_reads_own : forall o d c g m,
   m_owner m = c_project c \/ m_member m = c_project c.
 Proof. exact mem_reads_own. Qed.
 Print Assumptions C15_member_reads_own.
+
+(* ---- REST list layer --------------------------------------------------------------------------------- *)
+
+(* rest_utils.get_all, the policy base rules and access_control.enforce read as the model assumes; no call inside
+   mistral/api or mistral/expressions passes an `insecure` keyword to the db layer *)
+Theorem C15_rest_helpers_as_modelled : rest_facts = expected_rest_facts /\ surface_insecure_sites = [].
+Proof. split; vm_compute; reflexivity. Qed.
+Print Assumptions C15_rest_helpers_as_modelled.
+
+(* every list endpoint lists through a tenant-facing db-api function of the shape table *)
+Theorem C15_rest_lists_in_table : forall n ep, In (n, ep) rest_lists ->
+  exists q, In (le_fn ep, le_model ep, SList q) db_shapes /\ q_secure q = true.
+Proof.
+  assert (H : forallb (fun e : string * list_ep =>
+                existsb (fun t => String.eqb (fst (fst t)) (le_fn (snd e)) && model_eqb (snd (fst t)) (le_model (snd e)) &&
+                                  match snd t with SList q => q_secure q | _ => false end) db_shapes) rest_lists = true)
+    by (vm_compute; reflexivity).
+  intros n ep Hin. rewrite forallb_forall in H. specialize (H (n, ep) Hin). cbn [snd] in H.
+  apply existsb_exists in H. destruct H as [[[fn m] s] [Ht Hp]]. cbn [fst snd] in Hp.
+  apply andb_true_iff in Hp. destruct Hp as [Hp Hs]. apply andb_true_iff in Hp. destruct Hp as [Hn Hm].
+  apply String.eqb_eq in Hn. subst fn. destruct s; try discriminate. exists q. split; [|exact Hs].
+  assert (m = le_model ep) by (destruct m, (le_model ep); try discriminate; reflexivity). subst m. exact Ht.
+Qed.
+Print Assumptions C15_rest_lists_in_table.
+
+(* LISTS ONLY SHOW WHAT THE CALLER MAY SEE.  For every list endpoint of the current source, every database, every
+   non-admin caller and every request (all_projects, a project_id filter naming ANY project, a name filter): either the
+   request is refused, or every listed row is the caller's own, public, or shared with the caller through an
+   accepted membership.  The `insecure` decision of rest_utils.get_all and the policy gates of the controllers
+   are the generated insecure_cond / rest_lists. *)
+Theorem C15_rest_lists_isolated : forall n ep q d c r l x,
+  In (n, ep) rest_lists -> In (le_fn ep, le_model ep, SList q) db_shapes ->
+  c_admin c = false -> rest_list insecure_cond ep q d c r = LOk l -> In x l ->
+  In x (rows d) /\ visible d c x = true.
+Proof.
+  assert (H : forallb (fun e : string * list_ep => ep_safe insecure_cond (snd e)) rest_lists = true)
+    by (vm_compute; reflexivity).
+  intros n ep q d c r l x Hin Ht Hc Hl Hx. rewrite forallb_forall in H. specialize (H (n, ep) Hin). cbn [snd] in H.
+  assert (Hq : q_secure q = true).
+  { pose proof (C15_table_secure (SList q)) as Hs. apply Hs. exists (le_fn ep), (le_model ep). exact Ht. }
+  eapply rest_list_isolated; eassumption.
+Qed.
+Print Assumptions C15_rest_lists_isolated.
+
+(* the gates matter: an endpoint for which some non-admin request passes the gates with insecure = True lists a
+   private row of another project (generic: whatever insecure_cond and the endpoint are) *)
+Theorem C15_rest_unsafe_endpoint_leaks : forall ic ep,
+  ep_safe ic ep = false ->
+  exists r, rest_list ic ep QAdminArg (leak_d (le_model ep)) (mkCtx 2 false) r
+            = LOk [mkRes 7 (le_model ep) 1 Private 7 0 5 false].
+Proof. intros ic ep H. apply rest_unsafe_leaks; [exact H|reflexivity]. Qed.
+Print Assumptions C15_rest_unsafe_endpoint_leaks.
 
 (* non-vacuity: the hypotheses of the positive theorems are met by concrete table entries and states *)
 Example C15_nonvacuous :
